@@ -8,6 +8,10 @@ use trusttunnel::shutdown::Shutdown;
 use trusttunnel::verif::{self, vtunnel::*};
 
 fn make_core(speedtest: bool, rp: Option<(std::net::SocketAddr, &str)>, allow_private: bool) -> Core {
+    make_core_t(speedtest, rp, allow_private, None)
+}
+
+fn make_core_t(speedtest: bool, rp: Option<(std::net::SocketAddr, &str)>, allow_private: bool, establish_ms: Option<u64>) -> Core {
     let mut b = Settings::builder()
         .listen_address(("127.0.0.1", 1))
         .unwrap()
@@ -18,6 +22,9 @@ fn make_core(speedtest: bool, rp: Option<(std::net::SocketAddr, &str)>, allow_pr
         })
         .speedtest_enable(speedtest)
         .allow_private_network_connections(allow_private);
+    if let Some(ms) = establish_ms {
+        b = b.connection_establishment_timeout(std::time::Duration::from_millis(ms));
+    }
     if let Some((addr, mask)) = rp {
         b = b.reverse_proxy(ReverseProxySettings::builder().server_address(addr).unwrap().path_mask(mask.to_string()).build().unwrap());
     }
@@ -219,7 +226,8 @@ pub fn run(ctx: &mut Ctx) {
     }
 
     // ---- reverse proxy against a loopback origin, both values of the egress policy ---------------------------------
-    for allow_private in [false, true] {
+    // (through a tunnel host's path mask, and on a connection of the reverse-proxy host itself)
+    for (allow_private, own_host) in [(false, false), (true, false), (false, true)] {
         let rt = tokio::runtime::Builder::new_multi_thread().worker_threads(2).enable_all().build().unwrap();
         let seen = Arc::new(Mutex::new(Vec::<u8>::new()));
         let seen2 = seen.clone();
@@ -239,6 +247,33 @@ pub fn run(ctx: &mut Ctx) {
                     }
                     seen2.lock().unwrap().extend_from_slice(&got);
                     let _ = s.write_all(b"HTTP/1.1 101 Switching Protocols\r\nUpgrade: websocket\r\nConnection: Upgrade\r\n\r\nORIGIN-BYTES").await;
+                    // the exchange outlives the session's poll timeout (300 ms here): more bytes at 900 ms
+                    let (mut rd, mut wr) = s.into_split();
+                    let late = tokio::spawn(async move {
+                        tokio::time::sleep(std::time::Duration::from_millis(900)).await;
+                        let _ = wr.write_all(b"LATE-ORIGIN-BYTES").await;
+                        wr
+                    });
+                    // what the client sent after its request head
+                    let mut got_more = 0usize;
+                    while got_more < 12 {
+                        match rd.read(&mut buf).await {
+                            Ok(0) | Err(_) => break,
+                            Ok(n) => {
+                                seen2.lock().unwrap().extend_from_slice(&buf[..n]);
+                                got_more += n;
+                            }
+                        }
+                    }
+                    let mut wr = match late.await {
+                        Ok(w) => w,
+                        Err(_) => return,
+                    };
+                    let _ = wr.write_all(b"CLIENT-BYTES").await;
+                    let mut s = match rd.reunite(wr) {
+                        Ok(s) => s,
+                        Err(_) => return,
+                    };
                     // echo whatever follows
                     loop {
                         match s.read(&mut buf).await {
@@ -251,10 +286,28 @@ pub fn run(ctx: &mut Ctx) {
                     }
                 }
             });
-            let core = make_core(false, Some((origin, "/rp")), allow_private);
+            let core = make_core_t(false, Some((origin, "/rp")), allow_private, Some(300));
             let mut raw = b"GET /rp/socket?x=1 HTTP/1.1\r\nHost: localhost\r\nUpgrade: websocket\r\nConnection: Upgrade\r\nProxy-Authorization: Basic bogus\r\nX-Custom: v\r\n\r\n".to_vec();
             raw.extend_from_slice(b"CLIENT-BYTES");
-            let out = tokio::time::timeout(std::time::Duration::from_secs(10), h1_session(&core, "localhost", None, raw, 600)).await;
+            if own_host {
+                // the reverse-proxy host's own connection handler (`reverse_proxy::listen` over the HTTP/1.1 codec)
+                let sess = trusttunnel::verif::vservice::spawn(&core, "reverse_proxy", false).ok_or("could not start the reverse proxy session")?;
+                let (mut cr, mut cw) = tokio::io::split(sess.client);
+                cw.write_all(&raw).await.map_err(|e| e.to_string())?;
+                let mut all = vec![];
+                let mut buf = vec![0u8; 4096];
+                let t0 = std::time::Instant::now();
+                while t0.elapsed() < std::time::Duration::from_millis(1600) {
+                    match tokio::time::timeout(std::time::Duration::from_millis(100), cr.read(&mut buf)).await {
+                        Ok(Ok(0)) | Ok(Err(_)) => break,
+                        Ok(Ok(n)) => all.extend_from_slice(&buf[..n]),
+                        Err(_) => {}
+                    }
+                }
+                drop(cw);
+                return Ok(all);
+            }
+            let out = tokio::time::timeout(std::time::Duration::from_secs(10), h1_session(&core, "localhost", None, raw, 1600)).await;
             out.map_err(|_| "reverse proxy session hung".to_string())
         });
         match verdict {
@@ -266,6 +319,7 @@ pub fn run(ctx: &mut Ctx) {
                 let ok = status == 101
                     && body_s.starts_with("ORIGIN-BYTES")
                     && body_s.contains("CLIENT-BYTES")
+                    && body_s.contains("LATE-ORIGIN-BYTES")
                     && origin_saw.starts_with("GET /rp/socket?x=1 HTTP/1.1\r\n")
                     && origin_saw.to_lowercase().contains("x-original-protocol: http1\r\n")
                     && origin_saw.to_lowercase().contains("x-custom: v\r\n")
@@ -273,7 +327,7 @@ pub fn run(ctx: &mut Ctx) {
                 if !ok {
                     ctx.oracle_failure(
                         "reverse_proxy",
-                        &format!("allow_private={}: client got status {} body {:?}; origin saw {:?}", allow_private, status, body_s, origin_saw),
+                        &format!("allow_private={} own_host_connection={}: client got status {} body {:?}; origin saw {:?}", allow_private, own_host, status, body_s, origin_saw),
                     );
                 }
                 ctx.stat("reverse_proxy_sessions");
